@@ -230,6 +230,43 @@ def drive(machine, symbols, cuts, srckind, runpath, predata):
     return r
 
 
+def drive_pushed(machine, symbols, runpath, predata):
+    """The same run with the first symbol handed over by push() onto a fresh source (a driver that took one symbol off the
+    input to look at it and pushes it back before parsing).  Only the accounting invariant is observed: at every event and at
+    the end, source.sent == symbols pulled from the input iterable - symbols held back.  -> None or a detail tuple"""
+    cpppo, A, P = cat.mods()
+    if len(symbols) < 2:
+        return None
+    ctr = Counter(list(symbols[1:]))
+    src = A.chainable(ctr)
+    src.push(symbols[0])
+    data = cpppo.dotdict()
+    for k, v in predata.items():
+        data[k] = v
+    bad = None
+    try:
+        with machine:
+            eng = machine.run(source=src, data=data, path=runpath)
+            try:
+                steps = 0
+                for m, s in eng:
+                    steps += 1
+                    if steps > MAX_STEPS:
+                        break
+                    back = getattr(src, '_back', None)
+                    # the pushed symbol did not come from the iterable: one more is "held back" than was pulled until it is taken
+                    if back is not None and bad is None and src.sent != ctr.i - len(back):
+                        bad = ('pushed-first-symbol', src.sent, ctr.i, len(back))
+            finally:
+                eng.close()
+    except Exception:
+        pass
+    back = getattr(src, '_back', None)
+    if bad is None and back is not None and src.sent != ctr.i - len(back):
+        bad = ('pushed-first-symbol', src.sent, ctr.i, len(back))
+    return bad
+
+
 # ------------------------------------------------------------------------------------------------
 # building the machine for a case
 
@@ -295,6 +332,9 @@ def run_case(entry, p, enc, body, case, limit, with_limit):
     if form == 'prefix':
         body = struct.pack('<H', limit) + body
     r = drive(machine, symbols_of(entry, body), case['cuts'], case['src'], runpath, predata)
+    if case['src'] == 'chain' and not with_limit and r.acct is None and not (entry.whole or enc.whole):
+        machine2, _s, _p, _sub = build(entry, p, form, place, limit, with_limit)
+        r.acct = drive_pushed(machine2, symbols_of(entry, body), runpath, predata)
     return r, start, ppath
 
 
